@@ -119,7 +119,7 @@ func runWorker(bin string, gomaxprocs int, raceLog string, args ...string) runOu
 	if raceLog == "" {
 		raceLog = filepath.Join(scratch, "racelog-worker")
 	}
-	cmd.Env = append(os.Environ(), goraceBase+" log_path="+raceLog)
+	cmd.Env = append(os.Environ(), goraceBase+" log_path="+raceLog, "VERIF_SAMPLES="+filepath.Join(repoDir, "testdata"))
 	if gomaxprocs > 0 {
 		cmd.Env = append(cmd.Env, "GOMAXPROCS="+strconv.Itoa(gomaxprocs))
 	}
